@@ -295,15 +295,22 @@ def forms_corpus(ctx, only=None):
     thorough = ctx.tier == "thorough"
     cases = []
     for t in INT_TYPES:
-        vals = tyvals(t, rng, 6 if thorough else 2)
+        vals = tyvals(t, rng, 6 if thorough else 1)
         few = [v for v in vals if v in (0, 1, 2, -1, -7, 100)] + [trange(t)[0], trange(t)[1]]
         few = sorted(set(few))
+        if not thorough:   # quick: every boundary value as first operand, a handful as second
+            vals = sorted(set(few + [v for v in vals if v in (trange(t)[0] + 1, trange(t)[1] - 1, 127, 128, 255, 256, 65535,
+                                                              65536, 0x7FFFFFFF, 0x80000000)] + [rng.choice(vals)]))
+            few = sorted(set([0, 1, trange(t)[0], trange(t)[1], -1 if t[0] == "i" else 2, rng.choice(few)]))
         bits = BITS[t]
         shifts = sorted({0, 1, 2, 3, bits // 2, bits - 1, bits, rng.randrange(bits)})
         todo = []
         for op in OPS:
             if op in ("<<", ">>", "rol", "ror"):
                 bs = shifts
+            elif op in ("/", "%") and not thorough:
+                lo_, hi_ = trange(t)
+                bs = sorted({x for x in (0, 1, 2, -2, 3, -3, 7, -7, -1, lo_, hi_) if lo_ <= x <= hi_})
             elif thorough:
                 bs = vals
             else:
@@ -555,6 +562,11 @@ def attach(cases, results):
             c["py"] = [{"outcome": c["generr"], "ret": NONE_PV, "globals": [], "calls": []} for _ in c["vecs"]]
         else:
             c["py"] = results[c["id"]]
+        if all(o["outcome"].startswith(("error:load", "error:gen")) for o in c["py"]):
+            # the module never got to run: the observation is the same for every argument vector,
+            # so two of them are handed to TLC (an error trace per vector would only cost time)
+            for k in ("py", "vecs", "argv"):
+                c[k] = c[k][:2]
 
 
 def show_pv(v):
